@@ -668,6 +668,22 @@ pub fn plan(rec: &mut Recorder, rng: &mut Rng, thorough: bool) {
             }
             Err(_) => { rec.impl_violation(format!("plan generation / replay panics K={k} threshold={:?}", thr)); rec.put(&format!("sys {k}"), "plan-failed"); }
         }
+        // the per-K certificate of theorem C06.plan_certificate: one replay of the plan on the
+        // identity block (K symbols of K bytes, symbol i = e_i) must satisfy the whole system
+        if k <= (if thorough { 400 } else { 130 }) && it % 2 == 0 {
+            let ident: Vec<u8> = (0..k as usize).flat_map(|i| (0..k as usize).map(move |j| (i == j) as u8)).collect();
+            let id2 = ident.clone();
+            let r = guarded(move || {
+                let plan = match thr { None => SourceBlockEncodingPlan::generate(k as u16), Some(x) => SourceBlockEncodingPlan::verif_generate(k as u16, x).unwrap() };
+                let cfg = cfg_for(k, k as u16, 1, 1);
+                let enc = SourceBlockEncoder::with_encoding_plan(0, &cfg, &id2, &plan);
+                (ops_str(plan.verif_operations()), enc.verif_intermediate_symbols().concat())
+            });
+            if let Ok((ops, c)) = r {
+                rec.put(&format!("planrun {k} {k} {} {ops}", hex(&ident)), &format!("valid {}", hex(&c)));
+                rec.count("plan_certificates");
+            }
+        }
     }
 }
 
